@@ -619,6 +619,75 @@ func init() {
 		return &TupleVal{vals: []Value{ex.newBig(st, r), &IfaceVal{}}}
 	}
 
+	// ------------------------------------------------------------------ sync.Map
+	// A map with interface keys kept on the object the method is called on; Store / LoadOrStore / Delete
+	// are writes to that object (a package-level sync.Map is shared state for the write monitor, however
+	// well synchronised it is).
+	smap := func(st *State, p *Ptr) (*Object, *syncMapExt) {
+		o := st.obj(p.obj)
+		if me, ok := o.ext.(*syncMapExt); ok {
+			return o, me
+		}
+		return o, &syncMapExt{}
+	}
+	find := func(ex *Exec, st *State, me *syncMapExt, key Value) int {
+		for i, k := range me.keys {
+			if ex.branch(st, ex.valuesEqual(st, k, key)) {
+				return i
+			}
+		}
+		return -1
+	}
+	intrinsics["(*sync.Map).Load"] = func(ex *Exec, st *State, fr *Frame, c *ssa.Call, a []Value) Value {
+		_, me := smap(st, a[0].(*Ptr))
+		if i := find(ex, st, me, a[1]); i >= 0 {
+			return &TupleVal{vals: []Value{me.vals[i], mkBool(true)}}
+		}
+		return &TupleVal{vals: []Value{&IfaceVal{}, mkBool(false)}}
+	}
+	store := func(ex *Exec, st *State, p *Ptr, me *syncMapExt, i int, key, val Value) {
+		n := &syncMapExt{keys: append([]Value(nil), me.keys...), vals: append([]Value(nil), me.vals...)}
+		if i >= 0 {
+			n.vals[i] = val
+		} else {
+			n.keys, n.vals = append(n.keys, key), append(n.vals, val)
+		}
+		w := st.wobj(p.obj)
+		w.ext = n
+		ex.checkWrite(st, w)
+	}
+	intrinsics["(*sync.Map).Store"] = func(ex *Exec, st *State, fr *Frame, c *ssa.Call, a []Value) Value {
+		p := a[0].(*Ptr)
+		_, me := smap(st, p)
+		store(ex, st, p, me, find(ex, st, me, a[1]), a[1], a[2])
+		return nil
+	}
+	intrinsics["(*sync.Map).LoadOrStore"] = func(ex *Exec, st *State, fr *Frame, c *ssa.Call, a []Value) Value {
+		p := a[0].(*Ptr)
+		_, me := smap(st, p)
+		if i := find(ex, st, me, a[1]); i >= 0 {
+			return &TupleVal{vals: []Value{me.vals[i], mkBool(true)}}
+		}
+		store(ex, st, p, me, -1, a[1], a[2])
+		return &TupleVal{vals: []Value{a[2], mkBool(false)}}
+	}
+	intrinsics["(*sync.Map).Delete"] = func(ex *Exec, st *State, fr *Frame, c *ssa.Call, a []Value) Value {
+		p := a[0].(*Ptr)
+		_, me := smap(st, p)
+		if i := find(ex, st, me, a[1]); i >= 0 {
+			n := &syncMapExt{}
+			for j := range me.keys {
+				if j != i {
+					n.keys, n.vals = append(n.keys, me.keys[j]), append(n.vals, me.vals[j])
+				}
+			}
+			w := st.wobj(p.obj)
+			w.ext = n
+			ex.checkWrite(st, w)
+		}
+		return nil
+	}
+
 	// ------------------------------------------------------------------ math/rand, time
 	// A *math/rand.Rand made with rand.New is an object with hidden mutable state that is not safe for
 	// concurrent use: every method call is a write to it (the write monitor sees it when the object hangs
@@ -1140,6 +1209,10 @@ func (r *readerExt) cloneExt() Ext { n := *r; return &n }
 type bufExt struct{ cells []*Term }
 
 func (b *bufExt) cloneExt() Ext { return &bufExt{cells: append([]*Term(nil), b.cells...)} }
+
+type syncMapExt struct{ keys, vals []Value }
+
+func (m *syncMapExt) cloneExt() Ext { return m }
 
 type mathRandExt struct{}
 
